@@ -808,13 +808,32 @@ def run_case(case):
         dirs.append((x, y, z, d.x, d.y, d.z) if d is not None and d.x == d.x and d.y == d.y and d.z == d.z else (x, y, z, 9.0, 9.0, 9.0))
     out["dens"], out["dirs"], out["errors"] = dens, dirs, errors
     out["first"] = first
+    # intermediate values held by the attenuator (readonly attributes of the extension type)
+    att = beam.attenuator
+    out["src"] = float(att._source_density)
+    out["intermediates_ok"] = (float(att._tanxdiv) == tx and float(att._tanydiv) == ty and float(att._step) == float(case["step"])
+                               and abs(float(att._clamp_sigma_sqr) - cs * cs) <= 2.3e-16 * cs * cs)
+    out["intermediates"] = {"_tanxdiv": float(att._tanxdiv), "_tanydiv": float(att._tanydiv), "_step": float(att._step),
+                            "_clamp_sigma_sqr": float(att._clamp_sigma_sqr), "expected": [tx, ty, case["step"], cs * cs]}
+    # SingleRayAttenuator.density called directly, on the axis: inside the beam, just inside / outside the
+    # interpolator's extrapolation range (1e-9), far outside (ValueError expected -> recorded as -2)
+    adens = []
+    for z in (rnd(0.5 * L), -0.9e-9, -1.1e-9 if L > 1e-6 else -2e-9, -1.0 * L, L + 0.9e-9 if L + 0.9e-9 > L else L,
+              L + max(1.1e-9, 4 * (float(np.nextafter(L, 2 * L)) - L)), 2.0 * L):
+        try:
+            v = att.density(0.0, 0.0, z)
+            v = -1.0 if v != v else float(v)
+        except ValueError:
+            v = -2.0
+        adens.append((0.0, 0.0, float(z), v))
+    out["adens"] = adens
 
     # ---- oracle tables: libm values at the arguments the model is expected to ask for ----
     speed = math.sqrt(case["energy"] * k["cf"])
     sq = {speed, math.sqrt(axis[0] * axis[0] + axis[1] * axis[1] + axis[2] * axis[2])}
     ex = {}
-    for (x, y, z, _) in dens:
-        if 0 <= z <= L:
+    for (x, y, z, _) in dens + [a for a in adens if -2e-9 <= a[2] <= L + 2e-9 + 8 * (float(np.nextafter(L, 2 * L)) - L)]:
+        if 0 <= z <= L or x == 0.0 == y:
             sx, sy = sig(z)
             sq.update((sx, sy))
             key = -0.5 * ((x / sx) ** 2 + (y / sy) ** 2)
@@ -1107,3 +1126,61 @@ def _search_extra(case, beam, plasma, info, sig):
                           "point": [sg, -sg, z], "got": got, "beam": {k: case[k] for k in ("sigma", "div_x", "div_y")}})
             break
     return fails
+
+
+# ---------------------------------------------------------------------------------------------
+# setter histories on a live Beam and a live SingleRayAttenuator (argument-validation policy)
+# ---------------------------------------------------------------------------------------------
+SET_FIELDS = [("FEnergy", "beam", "energy"), ("FPower", "beam", "power"), ("FTemperature", "beam", "temperature"),
+              ("FDivX", "beam", "divergence_x"), ("FDivY", "beam", "divergence_y"), ("FLength", "beam", "length"),
+              ("FSigma", "beam", "sigma"), ("FStep", "att", "step"), ("FClampSigma", "att", "clamp_sigma")]
+
+
+def gen_sets(rng, n):
+    """a history of n setter calls with values on both sides of every guard: +-0.0, +-smallest subnormal, +-tiny, negative,
+    positive, huge, and the forms int / numpy scalar"""
+    pool = [0.0, -0.0, 5e-324, -5e-324, 1e-300, -1e-300, -1.0, -0.125, 1.0, 0.5, 3.0, 1e300, -1e300, 2.0 ** -30, 7.0]
+    ops = []
+    for _ in range(n):
+        f = rng.choice(SET_FIELDS)
+        r = rng.random()
+        v = rng.choice(pool) if r < 0.7 else (rng.uniform(-2, 5) if r < 0.85 else dyadic(rng, -1, 4, 4))
+        if f[0] == "FClampSigma" and v > 1e150:
+            v = 1e150          # clamp_sigma ** 2 overflows above 1.3e154 (Python raises OverflowError; state unchanged): not modelled
+        if f[0] == "FClampSigma" and 0 < v < 1e-150:
+            v = 2.0 ** -30     # clamp_sigma ** 2 underflows to 0.0 below 1.5e-162 (accepted, stores a zero radius): not modelled
+        form = rng.choice(["float", "float", "int", "np.float64", "np.float32"])
+        ops.append({"field": f[0], "value": v, "form": form})
+    return ops
+
+
+def run_sets(ops):
+    from cherab.core import Beam
+    from cherab.core.model import SingleRayAttenuator
+    objs = {"beam": Beam(), "att": SingleRayAttenuator()}
+    table = {f[0]: f for f in SET_FIELDS}
+    oks, used = [], []
+    for op in ops:
+        _, who, attr = table[op["field"]]
+        v = op["value"]
+        if op["form"] == "int" and float(v).is_integer() and abs(v) < 2 ** 31:
+            arg = int(v)
+        elif op["form"] == "np.float32" and float(np.float32(v)) == v:
+            arg = np.float32(v)
+        elif op["form"] == "np.float64":
+            arg = np.float64(v)
+        else:
+            arg = float(v)
+        try:
+            setattr(objs[who], attr, arg)
+            oks.append(True)
+        except ValueError:
+            oks.append(False)
+        used.append(float(v))
+    finals = []
+    for fname, who, attr in SET_FIELDS:
+        g = float(getattr(objs[who], attr))
+        finals.append((fname, float(objs["att"]._clamp_sigma_sqr) if fname == "FClampSigma" else g))
+        if fname == "FClampSigma" and abs(g * g - float(objs["att"]._clamp_sigma_sqr)) > 1e-15 * g * g:
+            finals.append(("FClampSigma", -1.0))          # getter is not the square root of the stored square
+    return oks, finals
